@@ -85,7 +85,7 @@ theorem qr_queue_drop {s s' : Cache} (hg : Good s) {p : Option Str} {front : Boo
     exact queue_del_last hg.tinv hsh hs
 
 /-- what a readable queue row reads as -/
-theorem qr_fetch {c : Cache} {n : Nat} (hok : QOk c n) {p : Option Str} {r : Row} (hr : r ∈ c.queueRows p)
+theorem qr_fetch {c : Cache} {n : Nat} (hok : QOkL c n) {p : Option Str} {r : Row} (hr : r ∈ c.queueRows p)
     (E : Externals) :
     (c.fetchRow E r false).2 ≠ .ioerror ∧
     fetchedOut (c.fetchRow E r false).2 = (rf_ent c r).out E c.cfg false false false := by
@@ -103,7 +103,7 @@ theorem rowResult_congr {c c' : Cache} (hc : c'.cfg = c.cfg) {r : Row} (he : rf_
 
 /-- **the loop of `pull`** on a state satisfying the invariant -/
 theorem qr_pullLoop (E : Externals) (now : Int) (p : Option Str) (front et tg : Bool) (n : Nat) :
-    ∀ (k : Nat) (c : Cache) (fuel : Nat), (c.queueRows p).length = k → k < fuel → QOk c n →
+    ∀ (k : Nat) (c : Cache) (fuel : Nat), (c.queueRows p).length = k → k < fuel → QOkL c n →
       ∃ f, Shrunk c (pullLoop E now p front et tg fuel c).1 f ∧
         (∀ x ∈ c.rows, x ∉ c.queueRows p → f x = true) ∧
         (pullLoop E now p front et tg fuel c).1.queueRows p =
@@ -180,7 +180,7 @@ theorem qr_pullLoop (E : Externals) (now : Int) (p : Option Str) (front et tg : 
 
 /-- **the loop of `peek`** on a state satisfying the invariant -/
 theorem qr_peekLoop (E : Externals) (now : Int) (p : Option Str) (front et tg : Bool) (n : Nat) :
-    ∀ (k : Nat) (c : Cache) (fuel : Nat), (c.queueRows p).length = k → k < fuel → QOk c n →
+    ∀ (k : Nat) (c : Cache) (fuel : Nat), (c.queueRows p).length = k → k < fuel → QOkL c n →
       ∃ f, Shrunk c (peekLoop E now p front et tg fuel c).1 f ∧
         (∀ x ∈ c.rows, x ∉ c.queueRows p → f x = true) ∧
         (peekLoop E now p front et tg fuel c).1.queueRows p = trimBy (expired now) front (c.queueRows p) ∧
